@@ -394,6 +394,15 @@ func controlDependsOnClassic(fn *ssa.Function, in ssa.Instruction, condPred func
 		}
 		return false
 	}
+	if os.Getenv("RULINT_DEBUG_CD") != "" && countsAsExit != nil {
+		for _, b := range fn.Blocks {
+			if len(b.Instrs) > 0 {
+				if last := b.Instrs[len(b.Instrs)-1]; isExit(last) {
+					fmt.Fprintf(os.Stderr, "CD-EXIT block %d %s counts=%v\n", b.Index, fn.Prog.Fset.Position(last.Pos()), countsAsExit(last))
+				}
+			}
+		}
+	}
 	seen := map[*ssa.BasicBlock]bool{}
 	var dep func(target *ssa.BasicBlock) bool
 	dep = func(target *ssa.BasicBlock) bool {
